@@ -62,6 +62,11 @@ pub struct RlCase {
     /// order in which the builder setters are called (see gen::apply_in_order)
     #[serde(default)]
     pub setter_order: u8,
+    /// the limiter is built this many microseconds after a millisecond tick, so that its window
+    /// boundaries lie off the grid on which callers arrive (arrivals a fraction of a millisecond
+    /// before a boundary)
+    #[serde(default)]
+    pub build_offset_us: u32,
     pub clones: u8,
     pub callers: Vec<RlCaller>,
     pub order: Vec<u8>,
@@ -131,16 +136,21 @@ fn case_strategy(tier: Tier) -> BoxedStrategy<RlCase> {
         prop::collection::vec(caller, 1..=callers_hi),
         prop::collection::vec(any::<u8>(), 0..=40),
         prop_oneof![3 => Just(None), 1 => (rel(10), rel(5)).prop_map(Some)],
-        (prop::bool::weighted(0.08), 0u8..8),
+        (
+            prop::bool::weighted(0.08),
+            0u8..8,
+            prop_oneof![4 => Just(0u32), 1 => prop_oneof![Just(1u32), Just(300u32), Just(999u32), 1u32..=999]],
+        ),
     )
         .prop_map(
-            |(window, limit, period, timeout, clones, callers, order, stall, (timeout_forever, setter_order))| RlCase {
+            |(window, limit, period, timeout, clones, callers, order, stall, (timeout_forever, setter_order, build_offset_us))| RlCase {
                 window,
                 limit,
                 period,
                 timeout,
                 timeout_forever,
                 setter_order,
+                build_offset_us,
                 clones,
                 callers,
                 order,
@@ -249,6 +259,10 @@ async fn interp(case: &RlCase) -> Verdict {
         1 => WindowType::SlidingLog,
         _ => WindowType::SlidingCounter,
     };
+    // off-grid construction instant; tokio's timer then fires up to 1 ms after a fractional
+    // deadline, which the deadline rules below allow for
+    crate::vclock::advance_ns(case.build_offset_us as u64 * 1_000);
+    let slack = (case.build_offset_us > 0) as u64;
     let layer = crate::gen::apply_in_order(
         RateLimiterLayer::builder(),
         vec![
@@ -376,7 +390,7 @@ async fn interp(case: &RlCase) -> Verdict {
             if let Some(tk) = task[i] {
                 if sim.state(tk) == TaskState::Live && admitted_at(&snap, i).is_none() {
                     waiting += 1;
-                    if t >= at[i] + timeout && !overlaps_stall(at[i], at[i] + timeout) {
+                    if t >= at[i] + timeout + slack && !overlaps_stall(at[i], at[i] + timeout + slack) {
                         v.c15.push(format!(
                             "t={t}: caller {i} arrived at {} and is still undecided, timeout_duration={} ms",
                             at[i], timeout
@@ -455,7 +469,7 @@ async fn interp(case: &RlCase) -> Verdict {
             if a > at[i] {
                 waited += 1;
             }
-            if a > at[i] + timeout && !overlaps_stall(at[i], at[i] + timeout) {
+            if a > at[i] + timeout + slack && !overlaps_stall(at[i], at[i] + timeout + slack) {
                 v.c15.push(format!(
                     "caller {i} arrived at {} and was admitted at {a}, later than timeout_duration={} ms",
                     at[i], timeout
@@ -475,7 +489,7 @@ async fn interp(case: &RlCase) -> Verdict {
                         "caller {i} was rejected (RateLimited) but its request reached the inner service"
                     ));
                 }
-                if t > at[i] + timeout && !overlaps_stall(at[i], at[i] + timeout) {
+                if t > at[i] + timeout + slack && !overlaps_stall(at[i], at[i] + timeout + slack) {
                     v.c15.push(format!(
                         "caller {i} arrived at {} and was rejected at {t}, later than timeout_duration={} ms",
                         at[i], timeout
@@ -637,6 +651,9 @@ async fn interp(case: &RlCase) -> Verdict {
     }
     if forever {
         v.classes.push("timeout_duration_max");
+    }
+    if case.build_offset_us > 0 {
+        v.classes.push("window_boundaries_off_the_millisecond_grid");
     }
     if (0..n).any(|i| created[i] < at[i]) {
         v.classes.push("first_poll_later_than_call");
